@@ -98,13 +98,23 @@ def specFluxes (res : Res) (m0 : Content) (sur : Bool) (n : Norm) (cc : Bool) :
     Except Err View :=
   specArgsView res m0 { rxns := true, sflux := sur } n cc
 
-/-- derivatives of one segment: the core's `get_right_hand_side(state, time)` per row -/
+/-- derivatives of one segment: stoichiometry (computed coefficients evaluated on the
+    reported row and its time) times the reported fluxes, i.e. the core's `rhsFromArgs` on
+    the pointwise row.  `C10_rhs_row_is_core_rhs` relates this to the core's
+    `get_right_hand_side(state, time)` -/
 def specSegRhs (m0 : Content) (tbl : Table) (p : Pars) : Except Err Table :=
   match withPars m0 p with
   | .error e => .error e
-  | .ok c => mapE (fun r => match getRhsQ c (some r.2) r.1 with
-      | .error e => .error e
-      | .ok d => .ok (r.1, d)) tbl
+  | .ok c =>
+    match createCache c with
+    | .error e => .error e
+    | .ok cache =>
+      mapE (fun r => match pointRow c r.1 r.2 with
+        | .error e => .error e
+        | .ok row =>
+          match rhsFromArgs cache (omKeys c.vars) (("time", r.1) :: row) with
+          | .error e => .error e
+          | .ok d => .ok (r.1, d)) tbl
 
 def specRhs (res : Res) (m0 : Content) (n : Norm) (cc : Bool) : Except Err View :=
   match zipWithE (specSegRhs m0) res.rawVars res.rawPars with
